@@ -918,7 +918,9 @@ class Geometry(SupportsCoords[float]):
     # It does work without these two methods, but gdal/ogr prints 'ERROR 1: Empty geometries cannot be constructed'
     # when unpickling, which is quite unpleasant.
     def __getstate__(self):
-        return {"geom": self.json, "crs": self.crs}
+        # the shapely object itself: GeoJSON can not carry a GeometryCollection through
+        # __init__ and drops the third coordinate
+        return {"geom": self.geom, "crs": self.crs}
 
     def __setstate__(self, state):
         self.__init__(**state)
